@@ -40,4 +40,17 @@ PivotsFrom(A, k) ==
                  IN <<p>> \o PivotsFrom(A2, k+1)
 Pivots(A) == PivotsFrom(A, 1)
 PosDef(A) == LET p == Pivots(A) IN Len(p) = Rows(A) /\ \A k \in 1..Len(p) : RSign(p[k]) > 0
+
+(* exact solution of the square system A x = b by Gauss-Jordan elimination with row search
+   (A non-singular): returns x *)
+RECURSIVE GaussFrom(_,_,_)
+GaussFrom(M, k, n) ==        \* M: n x (n+1) augmented matrix, columns 1..k-1 already reduced
+    IF k > n THEN Fn([i \in 1..n |-> M[i][n+1]])
+    ELSE LET piv == CHOOSE r \in k..n : ~RIsZero(M[r][k])
+             M1 == Fn([i \in 1..n |-> IF i = k THEN M[piv] ELSE IF i = piv THEN M[k] ELSE M[i]])
+             rowk == Fn([j \in 1..(n+1) |-> RDiv(M1[k][j], M1[k][k])])
+             M2 == Fn([i \in 1..n |-> IF i = k THEN rowk
+                                       ELSE Fn([j \in 1..(n+1) |-> RSub(M1[i][j], RMul(M1[i][k], rowk[j]))])])
+         IN GaussFrom(M2, k+1, n)
+Solve(A, b) == GaussFrom(Fn([i \in 1..Rows(A) |-> A[i] \o <<b[i]>>]), 1, Rows(A))
 =============================================================================
